@@ -167,7 +167,16 @@ def write_replay(pid, viol):
 def run_property(mod, tier, seed, only=None):
     t0 = time.time()
     pid = mod.ID
-    specs = mod.cases(tier, seed)
+    try:
+        specs = mod.cases(tier, seed)
+    except Exception as exc:  # noqa: BLE001
+        # the alphabets are built with the library's basic constructors: if those fail the
+        # tree is broken at a level every property depends on
+        v = {"case_id": "alphabet construction", "what": "building the input alphabet raises " + exc_str(exc) + " :: " + traceback.format_exc()[-600:], "replay": {"id": "alphabet"}}
+        path = write_replay(pid, v)
+        print("VIOLATION property=%s replay=%s" % (pid, path))
+        print("   case: %s\n   what: %s" % (v["case_id"], v["what"]))
+        return 1
     ids = [s["id"] for s in specs]
     if len(set(ids)) != len(ids):
         dup = sorted(i for i in set(ids) if ids.count(i) > 1)[:5]
